@@ -172,6 +172,13 @@ func (v *VerifClient) CachedRegions() []hrpc.RegionInfo {
 // VerifCacheRef refers to a client's own location cache.
 type VerifCacheRef struct{ krc *keyRegionCache }
 
+// Lock takes the location cache's write lock (to script the order in which concurrent
+// re-establishments reach the cache).
+func (r *VerifCacheRef) Lock() { r.krc.m.Lock() }
+
+// Unlock releases the location cache's write lock.
+func (r *VerifCacheRef) Unlock() { r.krc.m.Unlock() }
+
 // VerifNewScanner exposes newScanner over an arbitrary RPCClient.
 func VerifNewScanner(c RPCClient, rpc *hrpc.Scan) hrpc.Scanner {
 	return newScanner(c, rpc, slog.Default())
